@@ -259,6 +259,7 @@ def lastline_scenario(res, bins, tier, seed):
     if e is None:
         return
     _, ecases, esummary = e
+    ecases = ecases or []
     lost = [c for c in ecases if c.get("lost_last_lines")]
     res.coverage["last_line_before_exit_plays"] = {
         "plays": esummary["cases"], "stats": esummary["stats"], "plays_with_a_lost_last_line": len(lost),
@@ -327,6 +328,10 @@ def run(tier, seed):
         e = run_e2e(res, bins, seed, 4 if tier == "quick" else 12)
         if e is not None:
             ecases_v, ecases, esummary = e
+            ecases = ecases or []
+            if not ecases:
+                res.violation(None, "none of the real plays could be judged (every play ended before its spotlights had printed their lines)",
+                              {"kind": "plays-inconclusive", "stats": esummary.get("stats")}, no_input=True)
             bad_starts = [c for c in ecases if any(n != 1 for n in c.get("spotlight_starts", {}).values())]
             if bad_starts:
                 c = min(bad_starts, key=lambda c: describe_e2e(c)["size"])
@@ -344,7 +349,7 @@ def run(tier, seed):
                 report_oracle(res, eev["OC"], ecases, describe_e2e)
                 res.coverage["end_to_end_plays"] = {"plays": esummary["cases"], "stats": esummary["stats"],
                                                    "oracle_failures": sum(1 for c in eev["OC"] if c),
-                                                   "rule": "plays through the real binary with 2-4 actors (of one role and of different roles), each actor's spotlight script printing its own generated lines (stdout/stderr alternating, blanks around lines, blank lines, uneven pace, three lines of 4 KiB / 8 KiB / 64 KiB+ with the values at the end and 5000-character event texts, compared byte for byte via length + SHA-256) and one last line from its SIGHUP handler while the spotlight is being shut down at the end of the play (every second spotlight's output ends without a newline); per (observer, actor, signal) file the rows must be that actor's good lines exactly once, and every script must have been started exactly once"}
+                                                   "rule": "plays through the real binary with 2-4 actors (of one role and of different roles), each actor's spotlight script printing its own generated lines (stdout/stderr alternating, blanks around lines, blank lines, uneven pace, 10-17 lines beginning with punctuation or shell-trace-like prefixes (`+ `, `++`, `# `, `> `, `$ `, leading tabs) matched by a scalar and an event signal, three lines of 4 KiB / 8 KiB / 64 KiB+ with the values at the end and 5000-character event texts, compared byte for byte via length + SHA-256) and one last line from its SIGHUP handler while the spotlight is being shut down at the end of the play (every second spotlight's output ends without a newline); per (observer, actor, signal) file the rows must be that actor's good lines exactly once, and every script must have been started exactly once"}
                 if esummary["stats"].get("inconclusive-play-cut-short"):
                     res.notes.append("%d end-to-end plays ended before a spotlight had printed all its lines (sentinel row missing): not judged" % esummary["stats"]["inconclusive-play-cut-short"])
     if not res.violations and lastline_scenario_enabled():
